@@ -824,11 +824,9 @@ func (s *Service) cashChequeReceiptUpdate() {
 				continue
 			}
 			if status == 1 {
-				err := s.chequeStore.PutChainRetrieveTraffic(cashInfo.chainAddress, traffic.retrieveChequeTraffic)
-				if err != nil {
-					s.logger.Errorf("traffic:chainRetrieveTrafficUpdate - %v ", err.Error())
-				}
-				err = s.chequeStore.PutChainTransferTraffic(cashInfo.chainAddress, traffic.transferChequeTraffic)
+				// our cash-out only moves what the peer paid us on chain; what the
+				// peer has cashed from us is learnt from the chain alone
+				err := s.chequeStore.PutChainTransferTraffic(cashInfo.chainAddress, traffic.transferChequeTraffic)
 				if err != nil {
 					s.logger.Errorf("traffic:chainTransferTrafficUpdate - %v ", err.Error())
 				}
